@@ -152,7 +152,7 @@ func abiEmitCase(c *Ctx, abiName string, ca abi.ABIContract, method string, data
 	kind := strings.SplitN(res, " ", 2)[0]
 	c.Hit("abi-" + kind)
 	if kind == "panic" {
-		c.Fail("C09 abi: the decoder panicked on %s.%s data=%s: %s", abiName, method, hx(data), firstLine(pmsg))
+		c.Fail("C09 abi: the decoder panicked on %s.%s data=%s: %s", abiName, method, hx(data), firstLine300(pmsg))
 	}
 	if strings.HasSuffix(res, " repack-error") {
 		c.Fail("C09 abi: decoded values of %s.%s cannot be re-packed, data=%s", abiName, method, hx(data))
@@ -186,7 +186,7 @@ func abiEmitCase(c *Ctx, abiName string, ca abi.ABIContract, method string, data
 	})
 	if p != "" {
 		c.Hit("abi-validate-panic")
-		c.Fail("C09 abi: ValidateSendBlock of %s.%s panicked on data=%s: %s", abiName, method, hx(data), firstLine(p))
+		c.Fail("C09 abi: ValidateSendBlock of %s.%s panicked on data=%s: %s", abiName, method, hx(data), firstLine300(p))
 		return kind
 	}
 	if !found {
